@@ -527,15 +527,11 @@ func CheckComposite(c *Composite) error {
 		if (k.Flags&MoreComponents != 0) != (i < last) {
 			return fmt.Errorf("component %d of %d: MORE_COMPONENTS wrong", i, last+1)
 		}
-		n := 0
-		for _, b := range []uint16{WeHaveAScale, WeHaveAnXAndYScale, WeHaveATwoByTwo} {
-			if k.Flags&b != 0 {
-				n++
-			}
-		}
-		if n > 1 {
-			return fmt.Errorf("component %d: more than one transform flag", i)
-		}
+		// More than one transform flag is nominally excluded, but the
+		// specification's own parsing fragment (glyf chapter: "if (flags &
+		// WE_HAVE_A_SCALE) ... else if (flags & WE_HAVE_AN_X_AND_Y_SCALE) ...
+		// else if (flags & WE_HAVE_A_TWO_BY_TWO)") fixes the record length by
+		// priority; NumTransform follows it, so such records are well defined.
 		if k.Flags&WeHaveInstructions != 0 && !c.HasInstr {
 			return fmt.Errorf("component %d: WE_HAVE_INSTRUCTIONS without instructions", i)
 		}
